@@ -42,8 +42,34 @@ def gen_layers(rng, n=None):
     return d, k, c
 
 
-def impl_procmat(pkg, d, k, c):
-    el = NS(layerThermalCond=list(k), layerVolHeat=list(c), layer_thickness_lst=list(d), name='x')
+def gen_palette_layers(rng):
+    """Constructions built from a small palette of materials: the SAME Material object appears in several layers
+    of different thickness (sandwich walls, base course on slab, readDOE's repeated `concrete`)."""
+    npal = rng.choice([1, 2, 2, 3])
+    pal = [(rq(rng, 0.03, 3, 100), rq(rng, 10000, 3000000, 1)) for _ in range(npal)]
+    n = rng.choice([2, 3, 3, 4, 5, 6])
+    pick = [rng.randrange(npal) for _ in range(n)]
+    if n > npal and len(set(pick)) == n:
+        pick[-1] = pick[0]
+    d = [rq(rng, 0.01, 0.05, 1000) if rng.random() < 0.5 else rq(rng, 0.051, 0.6, 1000) for _ in range(n)]
+    if rng.random() < 0.15:
+        d[rng.randrange(n)] = rq(rng, 0.002, 0.0099, 10000)
+    return d, [pal[i][0] for i in pick], [pal[i][1] for i in pick], pick
+
+
+def impl_procmat(pkg, d, k, c, pick=None):
+    """A REAL (fractionised) Element; pick: None -> one Material object per layer; else one Material object per
+    palette entry, shared by the layers that use it."""
+    if d:
+        pick = pick if pick is not None else list(range(len(d)))      # no sharing: one Material per layer
+        mats = {}
+        for i, pi in enumerate(pick):
+            if pi not in mats:
+                mats[pi] = pkg.material.Material(k[i], c[i], 'pal%d' % pi)
+        el = pkg.element.Element(F(1, 5), F(9, 10), list(d), [mats[pi] for pi in pick], F(0), F(293), False, 'x')
+    else:
+        el = NS(layerThermalCond=list(k), layerVolHeat=list(c), layer_thickness_lst=list(d), name='x',
+                material_lst=[])
     try:
         with core.quiet():
             mats, th = pkg.uwg.UWG._procmat(el, F(1, 20), F(1, 100))
@@ -52,13 +78,25 @@ def impl_procmat(pkg, d, k, c):
     return th, [m.thermalcond for m in mats], [m.volheat for m in mats]
 
 
-def write_epw(src, dst, depths):
-    """Copy the Singapore EPW with a synthetic GROUND TEMPERATURES header line."""
+PROPS = {'blank': None,
+         # the optional soil conductivity / density / specific heat cells of each depth, filled in (EPW data dictionary)
+         'filled': [('1.3', '1500', '1200'), ('0.9', '1800', '840'), ('2.1', '2200', '1000')],
+         'partly': [('1.3', '', ''), ('', '1650', ' '), ('0.75', '1500', '')]}
+
+
+def write_epw(src, dst, depths, props='blank', other=None):
+    """Copy the Singapore EPW with a synthetic GROUND TEMPERATURES header line (16 cells per depth: depth, three
+    optional soil-property cells, 12 monthly values); `other`: further header variant of s1_util."""
+    import s1_util as S
     lines = open(src, errors='ignore').read().split('\n')
-    cells = ['GROUND TEMPERATURES', str(len(depths))]
-    for i, dep in enumerate(depths):
-        cells += [str(dep), '', '', ''] + ['%.1f' % (20 + i + 0.5 * m) for m in range(12)]
-    lines[3] = ','.join(cells)
+    lines[3] = ','.join(S.ground_line(depths, PROPS[props]))
+    if other:
+        import csv
+        import io
+        rows = S.apply_variant([next(csv.reader([ln])) for ln in lines[:8]], other)
+        buf = io.StringIO()
+        csv.writer(buf, lineterminator='\n').writerows(rows[:8])
+        lines[:8] = buf.getvalue().split('\n')[:8]
     open(dst, 'w').write('\n'.join(lines))
 
 
@@ -74,19 +112,24 @@ def run(chk):
     n = 400 if chk.tier == 'quick' else 4000
     cases, meta = [], []
     for i in range(n):
-        d, k, c = gen_layers(rng)
-        r = impl_procmat(pkg, d, k, c)
+        if i % 4 == 3:
+            d, k, c, pick = gen_palette_layers(rng)
+        else:
+            (d, k, c), pick = gen_layers(rng), None
+        r = impl_procmat(pkg, d, k, c, pick)
         ans = 'err index' if r is None else 'ok ' + lays_str(*r)
         cases.append(('procmat max=1/20 min=1/100 ' + lays_str(d, k, c), ans))
-        meta.append((d, k, c, r))
+        meta.append((d, k, c, r, pick))
     cases.append(('procmat max=1/20 min=1/100 d=[] k=[] c=[]',
                   'err index' if impl_procmat(pkg, [], [], []) is None else 'ok ?'))
     chk.correspond('UWG._procmat~procmat', 'C20', cases,
                    rule='fractionised UWG._procmat on layer lists of 1..8 layers, 2 mm..1 m (bands: <1cm, '
-                        '1-2cm, 2-5cm, >5cm) vs Lean procmat, exact thickness/conductivity/capacity lists',
+                        '1-2cm, 2-5cm, >5cm) vs Lean procmat, exact thickness/conductivity/capacity lists; every '
+                        'fourth case is a REAL Element built from a palette of 1-3 Material objects, the same '
+                        'object shared by several layers of different thickness',
                    classify=lambda l, a: 'single' if l.count(';') == 0 else 'multi')
     bad = 0
-    for d, k, c, r in meta:
+    for d, k, c, r, pick in meta:
         if r is None or min(d) < F(1, 100):
             continue
         th, kk, cc = r
@@ -98,7 +141,8 @@ def run(chk):
             if bad <= 3:
                 chk.violation('impl-violation', 'procmat oracle (T1/T2) on UWG._procmat',
                               case={'d': [str(x) for x in d], 'k': [str(x) for x in k],
-                                    'c': [str(x) for x in c]},
+                                    'c': [str(x) for x in c],
+                                    'Material object used by each layer (same number = same object)': pick},
                               observed={'thickness': [str(x) for x in th]},
                               expected='same total thickness/resistance/capacity, >=2 sub-layers, each <= 5 cm')
     chk.direct('procmat-oracle(UWG._procmat)', len(meta), sum(1 for m in meta if m[3] and min(m[0]) >= F(1, 100)),
@@ -110,6 +154,7 @@ def run(chk):
     ncol = 12 if chk.tier == 'quick' else 80
     cases2, bad2 = [], 0
     ucm_state = {'padded': 0, 'unpadded': 0, 'unpadded-but-equal': 0, 'other': 0}
+    hdr_modes = {}
     depth_sets = [[F('0.5'), F(2), F(4)], [F('0.5')], [F('0.2'), F('1.0')], [F('0.1'), F('0.33'), F('0.7'), F('1.5')],
                   [F(2), F('0.5'), F(4)], [F('0.05'), F(3)]]
     for i in range(ncol):
@@ -119,7 +164,11 @@ def run(chk):
                             rq(rng, 0.02, 2.5, 100)])
         kroad, croad = rq(rng, 0.5, 2, 10), rq(rng, 1000000, 2000000, 1)
         epw = os.path.join(work, 'g%d.epw' % i)
-        write_epw(os.path.join(repo, EPW), epw, depths)
+        pmode = ['blank', 'filled', 'partly'][i % 3]
+        other = [None, None, 'leapflag-Yes+dst-3/8-11/1', 'comments+weekday-Tuesday'][(i // 3) % 4]
+        hdr_modes[pmode + ('/other header cells varied' if other else '')] = \
+            hdr_modes.get(pmode + ('/other header cells varied' if other else ''), 0) + 1
+        write_epw(os.path.join(repo, EPW), epw, depths, pmode, other)
         m = pkg.uwg.UWG.from_param_file(os.path.join(repo, PARAM), epw_path=epw)
         m.nday, m.droad, m.kroad, m.croad = 1, droad, kroad, croad
         for attr in ('_soilindex1', '_soilindex2'):
@@ -154,6 +203,17 @@ def run(chk):
             frac_str(droad), frac_str(kroad), frac_str(croad), frac_list(depths))
         cases2.append((line, outs[0]))
         cases2.append((line + ' ', outs[1]))     # rural column: same rule
+        # what was read from the header: the depths and each depth's monthly values, whatever the optional cells hold
+        want_T = [[F('%.1f' % (20 + j + 0.5 * mm)) + F('273.15') for mm in range(12)] for j in range(len(depths))]
+        got_d = [row[0] for row in getattr(m, 'depth_soil', [])]
+        if outs[0].startswith('ok') and (getattr(m, 'nSoil', None) != len(depths) or got_d != list(depths) or
+                                         [list(r) for r in m.Tsoil] != want_T):
+            bad2 += 1
+            chk.violation('impl-violation', 'ground-temperature header as read (nSoil, depth_soil, Tsoil) vs the file',
+                          case={'GROUND TEMPERATURES': open(epw).read().split('\n')[3], 'soil-property cells': pmode},
+                          observed={'nSoil': getattr(m, 'nSoil', None), 'depth_soil': [str(x) for x in got_d],
+                                    'Tsoil[0]': [str(x) for x in (m.Tsoil[0] if m.Tsoil else [])]},
+                          expected={'depths': [str(x) for x in depths], 'Tsoil[0]': [str(x) for x in want_T[0]]})
         # oracle T3/T4 + Tsoil on the implementation
         if outs[0].startswith('ok') and getattr(m, '_soilindex1', None) is not None:
             idx = m._soilindex1
@@ -174,11 +234,15 @@ def run(chk):
         os.remove(epw)
     chk.correspond('generate()-ground-columns~groundColumn', 'C20', cases2,
                    rule='fractionised UWG.generate() on the Singapore EPW with synthetic ground-temperature '
-                        'headers (1-4 depths, unsorted too) x pavement thickness: road and rural layer lists '
-                        'and soil index vs Lean groundColumn, exact',
+                        'headers (1-4 depths, unsorted too; the optional soil conductivity / density / specific-heat '
+                        'cells of every depth blank, all filled, or partly filled, in rotation; for half of the files '
+                        'other header cells varied as well) x pavement thickness (incl. deeper than the deepest '
+                        'depth: index unset): road and rural layer lists and soil index vs Lean groundColumn, exact '
+                        '(the model takes the depths only: the optional cells are no input)',
                    classify=lambda l, a: 'unset' if 'idx=unset' in a else 'err' if a.startswith('err') else 'padded')
 
     chk.measurements['column_simulated_by_canyon_model'] = ucm_state
+    chk.extra_cov['ground_header_modes'] = hdr_modes
     if ucm_state['unpadded'] and not ucm_state['other'] and not chk.broken() and not chk.violations:
         for kf in chk.known_findings():
             if kf['id'] == 'C20-urban-road-not-padded':
@@ -190,11 +254,29 @@ def run(chk):
     starts = [(1, 31, 2), (7, 1, 1)] if chk.tier == 'quick' else \
         [(mo, 28 if mo == 2 else 30, 3) for mo in range(1, 12)] + [(12, 1, 1)]
     bad3, nsteps = 0, 0
-    hdr = open(os.path.join(repo, EPW), errors='ignore').read().split('\n')[3].split(',')
-    for (mo, dy, nd) in starts:
-        m = realuwg.UWG.from_param_file(os.path.join(repo, PARAM), epw_path=os.path.join(repo, EPW),
+    import s1_util as S
+    sgp_rows = S.load_epw(os.path.join(repo, EPW))
+    # the shipped file, and copies whose ground line has the optional soil-property cells filled in / partly filled /
+    # an actual-year header; a file with four depths, the properties filled, pavement below the second depth
+    t5 = [(st, 'base', None, None) for st in starts]
+    t5 += [(starts[0], 'ground-props-filled', None, None), (starts[-1], 'actual-year-header', None, None),
+           ((rng.randint(1, 11), 28, 2), 'ground-props-partly', None, None),
+           ((rng.randint(1, 11), 27, 2), 'filled', [0.3, 0.8, 1.5, 3.0], rng.choice([0.5, 1.0, 1.2]))]
+    hdr_file = None
+    for ((mo, dy, nd), variant, own_depths, droad) in t5:
+        if own_depths:
+            rows_v = S.copy_rows(sgp_rows)
+            rows_v[3] = S.ground_line(own_depths, PROPS[variant],
+                                      temps=lambda i, mth: '%.2f' % (11.0 + 1.7 * i + 0.31 * mth))
+        else:
+            rows_v = S.apply_variant(sgp_rows, variant)
+        epw_v = os.path.join(repo, EPW) if variant == 'base' else S.save_epw(rows_v, os.path.join(work, 't5v.epw'))
+        depths_v, temps_v, _ = S.ground_of(rows_v)        # by the EPW layout: 16 cells per depth
+        m = realuwg.UWG.from_param_file(os.path.join(repo, PARAM), epw_path=epw_v,
                                         new_epw_dir=work, new_epw_name='t5.epw')
         m.month, m.day, m.nday, m.dtsim = mo, dy, nd, 300
+        if droad:
+            m.droad = droad
         with core.quiet():
             m.generate()
         seen = []
@@ -208,25 +290,44 @@ def run(chk):
             m.simulate()
         del m.simTime.update_date
         nsteps += len(seen)
+        pav = m.droad if m.droad <= 0.05 else 0.05 * int(math.ceil(m.droad / 0.05))
+        want_idx = next((i for i, d in enumerate(depths_v) if d > pav - 1e-9), None)
+        if m._soilindex1 != want_idx or m._soilindex2 != want_idx or \
+                [r[0] for r in m.depth_soil] != depths_v:
+            bad3 += 1
+            chk.violation('impl-violation', 'ground-temperature level chosen as deep boundary (T3)',
+                          case={'epw_variant': variant, 'GROUND TEMPERATURES': rows_v[3], 'droad': m.droad},
+                          observed={'_soilindex1': m._soilindex1, '_soilindex2': m._soilindex2,
+                                    'depth_soil': m.depth_soil},
+                          expected={'index': want_idx, 'depths': depths_v})
+            continue
         for (month, deep) in seen:
-            want = float(hdr[6 + 16 * m._soilindex1 + (month - 1)]) + 273.15
+            want = temps_v[want_idx][month - 1] + 273.15
             if deep != want:
                 bad3 += 1
                 chk.violation('impl-violation', 'deep temperature oracle (T5)',
-                              case={'start': [mo, dy], 'nday': nd, 'month_of_step': month},
+                              case={'start': [mo, dy], 'nday': nd, 'month_of_step': month, 'epw_variant': variant,
+                                    'GROUND TEMPERATURES': rows_v[3], 'droad': m.droad},
                               observed=deep, expected=want)
                 break
-    chk.direct('deepTemp-oracle(simulate, every step)', nsteps, len(starts),
+    chk.direct('deepTemp-oracle(simulate, every step)', nsteps, len(t5),
                'real runs crossing month boundaries: at every step forc.deepTemp equals the EPW header value of '
-               'the chosen depth for the calendar month in which the step starts', mismatches=bad3)
+               'the chosen depth for the calendar month in which the step starts; the chosen depth is the first one '
+               'at or below the pavement. Files: the shipped one; its ground line with the optional soil-property '
+               'cells filled / partly filled; an actual-year header (leap flag, DST period, holidays, Friday, '
+               'properties); a four-depth line with properties filled and the pavement below the second depth. '
+               'Expected values are parsed by the EPW layout (16 cells per depth)', mismatches=bad3)
 
     # --- float-level padding oracle on the real generate(): pavement thickness grid
     grid = [0.05 * k for k in range(1, 81)] if chk.tier == 'thorough' else \
         [0.05, 0.1, 0.15, 0.25, 0.3, 0.35, 0.5, 0.55, 0.75, 1.0, 1.5, 2.0, 2.05, 2.5, 3.0, 3.85, 3.9, 4.0]
-    depths_f = [float(hdr[2 + 16 * i]) for i in range(int(hdr[1]))]
+    depths_f = S.ground_of(sgp_rows)[0]
     bad4 = 0
-    for droad in grid:
-        m = realuwg.UWG.from_param_file(os.path.join(repo, PARAM), epw_path=os.path.join(repo, EPW))
+    filled = S.save_epw(S.apply_variant(sgp_rows, 'ground-props-filled'), os.path.join(work, 'pad_filled.epw'))
+    for gi, droad in enumerate(grid):
+        # every third grid point on the copy whose soil-property cells are filled in (same depths)
+        m = realuwg.UWG.from_param_file(os.path.join(repo, PARAM),
+                                        epw_path=filled if gi % 3 == 1 else os.path.join(repo, EPW))
         m.nday, m.droad = 1, droad
         with core.quiet():
             m.generate()
@@ -235,20 +336,24 @@ def run(chk):
             idx = getattr(m, idxname)
             want_idx = next((i for i, d in enumerate(depths_f) if d > pavement - 1e-9), None)
             tot = sum(el.layer_thickness_lst)
-            gap_layers = (depths_f[idx] - pavement) / 0.05
-            ok = idx == want_idx and depths_f[idx] - 1e-9 <= tot < depths_f[idx] + 0.05 - 1e-9
-            if abs(gap_layers - round(gap_layers)) < 1e-6:
-                ok = ok and abs(tot - depths_f[idx]) < 1e-9
+            ok = idx == want_idx
+            if ok:
+                gap_layers = (depths_f[idx] - pavement) / 0.05
+                ok = depths_f[idx] - 1e-9 <= tot < depths_f[idx] + 0.05 - 1e-9
+                if abs(gap_layers - round(gap_layers)) < 1e-6:
+                    ok = ok and abs(tot - depths_f[idx]) < 1e-9
             if not ok:
                 bad4 += 1
                 if bad4 <= 2:
                     chk.violation('impl-violation', 'padding oracle (T3/T4) on the real float generate()',
-                                  case={'droad': droad, 'element': el.name},
+                                  case={'droad': droad, 'element': el.name,
+                                        'soil-property cells': 'filled' if gi % 3 == 1 else 'blank'},
                                   observed={'index': idx, 'column_depth': tot, 'layers': len(el.layer_thickness_lst)},
                                   expected='index %s, column ending at depth %s' % (want_idx, depths_f[want_idx]))
     chk.direct('padding-oracle(real float generate)', 2 * len(grid), 2 * len(grid),
                'real (double precision) generate() over a grid of pavement thicknesses: road and rural columns end at '
                'the first ground-temperature depth at or below the pavement (exactly, to 1e-9, when the gap is a whole '
-               'number of 5 cm layers)', mismatches=bad4)
+               'number of 5 cm layers); every third grid point on a copy of the file whose soil-property cells are '
+               'filled in', mismatches=bad4)
     chk.assumptions.append('float effects in ceil(droad/0.05) and depth > sum(thickness) are outside the exact '
                            'model (e.g. droad=0.35 gives 8 pavement layers in doubles, 7 exactly)')
